@@ -23,12 +23,14 @@ Model: `NrfModel/Net/Node.lean` (`nodeWrite` = `_write`, `ackWait` = its wait lo
                  a `_net_update()` call begun no later than the deadline; `False` only after the
                  deadline.
 * `C13_live_partial` closed system, loss-free, two hops: see the end of the file.
+* `C13_live_closed_partial` the same with `L3Contracts` discharged (`l3contracts`, `NrfProofs/L3Discharge.lean`).
 -/
 import NrfProofs.C13Ack
 import NrfProofs.C13Trace
 import NrfProofs.C13Example
 import NrfProofs.C13Live
 import NrfProofs.C05Example3
+import NrfProofs.L3Discharge
 
 namespace Nrf.Props.C13
 open Nrf Nrf.Net Nrf.Spec Nrf.Proofs Nrf.Props.C04
@@ -395,6 +397,61 @@ example (hc : L3Contracts) : ∃ s1,
       (.ok (true, callerFrame [1, 1] [] 6 100 [9, 8, 7]), s1) ∧
     DeliveredOnce Example.three.nodes s1.nodes 0 (val [1, 1]) 100 [9, 8, 7] :=
   (C13_live_partial hc {} (by decide) Example.L Example.tree3 Example.three 2 1 0 [1, 1] [1] [] 100 [9, 8, 7]
+    Example.three_ok rfl rfl (by decide) (by decide) (by decide) (by decide)
+    (by
+      intro i
+      match i with
+      | 0 => decide
+      | 1 => decide
+      | 2 => decide
+      | n + 3 =>
+        show val [5, 5, 5, 5 - n % 4] ≠ 0o4444
+        simp only [val]
+        omega)
+    rfl rfl rfl (by decide) (by decide) (by decide) (by decide)
+    (by
+      intro i hi
+      have hi' : i < 3 := hi
+      have : i = 0 ∨ i = 1 ∨ i = 2 := by omega
+      rcases this with rfl | rfl | rfl <;> decide)
+    (by
+      intro i hi
+      have hi' : i < 3 := hi
+      have : i = 0 ∨ i = 1 ∨ i = 2 := by omega
+      rcases this with rfl | rfl | rfl <;> decide)
+    (by decide) (by decide) (by decide)
+    ⟨by decide, by intro g hg; cases hg⟩).2.2.2
+
+/-! ## the same, with the driver contracts proved -/
+
+/-- **`C13_live_partial` unconditionally**: `l3contracts : L3Contracts` (NrfProofs/L3Discharge.lean) proves the
+    six driver contracts from the driver model over the chip and the air; what is missing for the general
+    `C13_live` is listed at `C13_live_partial` -/
+theorem C13_live_closed_partial (cfg : AddrCfg) (hcfg : CfgOk cfg) (L : LinkCfg)
+    (tree : Nat → List Nat) (s : NetState) (a r jd : Nat) (x y d : List Nat) (ty : Int) (msg : Bytes)
+    (hok : NetOk cfg L tree s) (hcur : s.cur = a) (hact : s.active = [a])
+    (ha : a < s.nodes.length) (hr : r < s.nodes.length) (hjd : jd < s.nodes.length)
+    (hsize : s.nodes.length ≤ 20000) (hndef : ∀ i, val (tree i) ≠ NETWORK_DEFAULT_ADDR)
+    (hta : tree a = x) (htr : tree r = y) (htd : tree jd = d)
+    (hy1 : nextHopSpec x d = y) (hy2 : nextHopSpec y d = d) (hxd : x ≠ d) (hyd : y ≠ d)
+    (hquiet : ∀ i, i < s.nodes.length → (s.radioAt i).rxFifo = [])
+    (hlast : ∀ i, i < s.nodes.length → (s.radioAt i).lastRx = none)
+    (hty : 65 ≤ ty ∧ ty ≤ 127) (hlen : msg.length ≤ MAX_FRAG_SIZE)
+    (hmax : msg.length ≤ (s.nodeAt a).maxMessageLength)
+    (hacc : Accepts (s.nodeAt jd).queue (wireCopy (callerFrame x d s.nextId ty msg))) :
+    AckType ty.toNat ∧ originRule x d ty.toNat = .await ∧ forwarderRule y x d ty.toNat = .emit ∧
+    ∃ s1, nexec (apiNetWrite (val d) ty msg AUTO_ROUTING) s =
+        (.ok (true, callerFrame x d s.nextId ty msg), s1) ∧
+      DeliveredOnce s.nodes s1.nodes jd (val x) ty.toNat msg :=
+  C13_live_partial l3contracts cfg hcfg L tree s a r jd x y d ty msg hok hcur hact ha hr hjd hsize hndef hta
+    htr htd hy1 hy2 hxd hyd hquiet hlast hty hlen hmax hacc
+
+/-- non-vacuity (the chain `0o0 — 0o1 — 0o11` of `NrfProofs/C05Example3.lean`), without any open hypothesis -/
+example : ∃ s1,
+    nexec (apiNetWrite (val []) 100 [9, 8, 7] AUTO_ROUTING) Example.three =
+      (.ok (true, callerFrame [1, 1] [] 6 100 [9, 8, 7]), s1) ∧
+    DeliveredOnce Example.three.nodes s1.nodes 0 (val [1, 1]) 100 [9, 8, 7] :=
+  (C13_live_closed_partial {} (by decide) Example.L Example.tree3 Example.three 2 1 0 [1, 1] [1] [] 100 [9, 8, 7]
     Example.three_ok rfl rfl (by decide) (by decide) (by decide) (by decide)
     (by
       intro i
